@@ -45,8 +45,8 @@ def _addr_key(s):
         return None
     try:
         if '/' in s:
-            n = ipaddress.ip_network(s, strict=False)
-            return ('net', n.version, int(n.network_address), n.prefixlen)
+            n = ipaddress.ip_interface(s)        # host bits are part of the value: an unmasked prefix differs
+            return ('net', n.version, int(n.ip), n.network.prefixlen)
         a = ipaddress.ip_address(s)
         return ('addr', a.version, int(a))
     except ValueError:
